@@ -12,6 +12,24 @@ _n = 0
 INT_MAX = 2**31 - 1
 
 
+CLAMP = 2_000_000_000
+
+
+def _clamp(o):
+    """Observed integers beyond TLC's 32-bit range (a misbehaving implementation can produce anything) are
+    clamped to +-2e9: they then disagree with every value the specification computes, i.e. the event is
+    rejected and reported as a violation rather than aborting the run."""
+    if isinstance(o, bool) or o is None or isinstance(o, str):
+        return o
+    if isinstance(o, int):
+        return max(-CLAMP, min(CLAMP, o))
+    if isinstance(o, dict):
+        return {k: _clamp(v) for k, v in o.items()}
+    if isinstance(o, (list, tuple)):
+        return [_clamp(v) for v in o]
+    return o
+
+
 def _check_json(o, path="$"):
     if isinstance(o, bool) or o is None or isinstance(o, str):
         return
@@ -47,6 +65,7 @@ def validate(module: str, traces: list[dict], *, cfg: str | None = None, chunk: 
         doc = {"traces": [{"id": k + 1, "hdr": t.get("hdr", {}), "ev": t["ev"]} for k, t in enumerate(part)]}
         if extra_doc:
             doc.update(extra_doc)
+        doc = _clamp(doc)
         _check_json(doc)
         f.write_text(json.dumps(doc))
         res = tlc.run(module, cfg or f"{module}.cfg", workers=1, env={"TRACE_FILE": str(f)},
